@@ -58,7 +58,7 @@ func runC19(c *core.Ctx) {
 func c19Frame(c *core.Ctx, pkg *packages.Package) {
 	info := pkg.TypesInfo
 	if fn := c.Need("C19.frame", "udf/agent", "", "WriteMessage"); fn != nil {
-		eng := &an.Engine{Prog: c.P,
+		eng := &an.Engine{Prog: c.P, Alias: map[string]string{an.ParamName(fn.Decl.Type, 0): "msg", an.ParamName(fn.Decl.Type, 1): "w"},
 			TrackCall: func(call *ast.CallExpr, callee *types.Func) string {
 				if callee == nil {
 					return ""
@@ -131,9 +131,11 @@ func c19Frame(c *core.Ctx, pkg *packages.Package) {
 		// error discipline: each of the three fallible calls is followed by `if err != nil { return err }`
 		nChecks := 0
 		ast.Inspect(fn.Decl.Body, func(n ast.Node) bool {
-			if ifs, ok := n.(*ast.IfStmt); ok && types.ExprString(ifs.Cond) == "err != nil" && len(ifs.Body.List) == 1 {
-				if r, ok := ifs.Body.List[0].(*ast.ReturnStmt); ok && len(r.Results) == 1 && types.ExprString(r.Results[0]) == "err" {
-					nChecks++
+			if ifs, ok := n.(*ast.IfStmt); ok && len(ifs.Body.List) == 1 {
+				if be, ok := ifs.Cond.(*ast.BinaryExpr); ok && be.Op == token.NEQ && an.IsNil(info, be.Y) && an.IsErrorType(info, be.X) {
+					if r, ok := ifs.Body.List[0].(*ast.ReturnStmt); ok && len(r.Results) == 1 && types.ExprString(r.Results[0]) == types.ExprString(be.X) {
+						nChecks++
+					}
 				}
 			}
 			return true
@@ -152,6 +154,33 @@ func c19Frame(c *core.Ctx, pkg *packages.Package) {
 		}
 		return true
 	})
+	// roles: size = first result of ReadUvarint; b = the slice cut to size; read = the counter of the loop condition; n = what Read returned
+	sizeN, bN, readN, nN, bufP := "", "", "", "", an.ParamName(fn.Decl.Type, 0)
+	ast.Inspect(fn.Decl.Body, func(n ast.Node) bool {
+		as, ok := n.(*ast.AssignStmt)
+		if !ok || len(as.Rhs) != 1 {
+			return true
+		}
+		if call, ok := as.Rhs[0].(*ast.CallExpr); ok && len(as.Lhs) == 2 {
+			if f := core.Callee(info, call); f != nil {
+				switch f.Name() {
+				case "ReadUvarint":
+					sizeN = types.ExprString(as.Lhs[0])
+				case "Read":
+					nN = types.ExprString(as.Lhs[0])
+				}
+			}
+		}
+		if _, ok := ast.Unparen(as.Rhs[0]).(*ast.SliceExpr); ok && len(as.Lhs) == 1 && as.Tok == token.DEFINE && bN == "" {
+			bN = types.ExprString(as.Lhs[0])
+		}
+		return true
+	})
+	if loop != nil {
+		if be, ok := loop.Cond.(*ast.BinaryExpr); ok {
+			readN = types.ExprString(be.X)
+		}
+	}
 	if loop == nil {
 		c.Fail("C19.frame", "ReadMessage#loop", fn.Decl.Pos(), "ReadMessage has no read loop: a message delivered in more than one Read is truncated")
 	} else {
@@ -164,11 +193,11 @@ func c19Frame(c *core.Ctx, pkg *packages.Package) {
 					readArg = types.ExprString(x.Args[0])
 				}
 			case *ast.AssignStmt:
-				if x.Tok == token.ADD_ASSIGN && types.ExprString(x.Lhs[0]) == "read" {
+				if x.Tok == token.ADD_ASSIGN && types.ExprString(x.Lhs[0]) == readN {
 					adv = types.ExprString(x.Rhs[0])
 				}
 			case *ast.IfStmt:
-				if types.ExprString(x.Cond) == "err == io.EOF" {
+				if be, ok := x.Cond.(*ast.BinaryExpr); ok && be.Op == token.EQL && types.ExprString(be.Y) == "io.EOF" && an.IsErrorType(info, be.X) {
 					for _, st := range x.Body.List {
 						if r, ok := st.(*ast.ReturnStmt); ok && len(r.Results) == 1 && types.ExprString(r.Results[0]) != "nil" {
 							eofErr = true
@@ -178,7 +207,7 @@ func c19Frame(c *core.Ctx, pkg *packages.Package) {
 			}
 			return true
 		})
-		okk := (cond == "read != size" || cond == "read < size") && readArg == "b[read:]" && (adv == "uint64(n)") && eofErr
+		okk := (cond == readN+" != "+sizeN || cond == readN+" < "+sizeN) && readArg == bN+"["+readN+":]" && (adv == "uint64("+nN+")") && eofErr
 		c.Check(okk, "C19.frame", "ReadMessage#loop", loop.Pos(), "the read loop must run while read != size, read into b[read:], add n to read and fail on EOF inside a message (cond %q, reads into %q, advances by %q, EOF is an error: %v): otherwise a frame that arrives in several reads is cut or overwritten from the start", cond, readArg, adv, eofErr)
 	}
 	// the buffer is exactly size bytes and that is what is decoded
@@ -187,7 +216,7 @@ func c19Frame(c *core.Ctx, pkg *packages.Package) {
 	ast.Inspect(fn.Decl.Body, func(n ast.Node) bool {
 		switch x := n.(type) {
 		case *ast.AssignStmt:
-			if len(x.Lhs) == 1 && types.ExprString(x.Lhs[0]) == "b" {
+			if len(x.Lhs) == 1 && types.ExprString(x.Lhs[0]) == bN {
 				bdef = types.ExprString(x.Rhs[0])
 			}
 		case *ast.CallExpr:
@@ -198,15 +227,15 @@ func c19Frame(c *core.Ctx, pkg *packages.Package) {
 		}
 		return true
 	})
-	c.Check(bdef == "(*buf)[:size]" && um == "b", "C19.frame", "ReadMessage#extent", fn.Decl.Pos(), "exactly the size bytes of the frame must be decoded (b = %q, decoded %q): decoding the whole reusable buffer appends the tail of an earlier, longer message", bdef, um)
+	c.Check(bdef == "(*"+bufP+")[:"+sizeN+"]" && um == bN, "C19.frame", "ReadMessage#extent", fn.Decl.Pos(), "exactly the size bytes of the frame must be decoded (b = %q, decoded %q): decoding the whole reusable buffer appends the tail of an earlier, longer message", bdef, um)
 	sizeSrc := ""
 	ast.Inspect(fn.Decl.Body, func(n ast.Node) bool {
-		if as, ok := n.(*ast.AssignStmt); ok && len(as.Lhs) == 2 && types.ExprString(as.Lhs[0]) == "size" {
+		if as, ok := n.(*ast.AssignStmt); ok && len(as.Lhs) == 2 && types.ExprString(as.Lhs[0]) == sizeN {
 			sizeSrc = types.ExprString(as.Rhs[0])
 		}
 		return true
 	})
-	c.Check(sizeSrc == "binary.ReadUvarint(r)", "C19.frame", "ReadMessage#length", fn.Decl.Pos(), "the length must be read with binary.ReadUvarint, the inverse of the writer's PutUvarint (found %q)", sizeSrc)
+	c.Check(sizeSrc == "binary.ReadUvarint("+an.ParamName(fn.Decl.Type, 1)+")", "C19.frame", "ReadMessage#length", fn.Decl.Pos(), "the length must be read with binary.ReadUvarint, the inverse of the writer's PutUvarint (found %q)", sizeSrc)
 	// C19.reset
 	if umCall != nil {
 		okReset := false
@@ -383,14 +412,21 @@ func c19Roles(c *core.Ctx, pkg *packages.Package) {
 	if fn == nil {
 		return
 	}
-	norm := func(s string) string { return strings.Join(strings.Fields(s), " ") }
+	ren := c19Renamer(fn)
+	norm := func(s string) string { return ren(strings.Join(strings.Fields(s), " ")) }
 	fieldsCall := "s.typeMapsToFields( msg.Point.FieldsString, msg.Point.FieldsDouble, msg.Point.FieldsInt, msg.Point.FieldsBool, )"
 	_ = fieldsCall
 	isFields := func(s string) bool {
 		s = strings.ReplaceAll(norm(s), " ", "")
 		return s == "s.typeMapsToFields(msg.Point.FieldsString,msg.Point.FieldsDouble,msg.Point.FieldsInt,msg.Point.FieldsBool)"
 	}
-	if a := c19Args(info, fn.Decl.Body, "NewPointMessage"); len(a) == 7 {
+	renAll := func(a []string) []string {
+		for i := range a {
+			a[i] = ren(a[i])
+		}
+		return a
+	}
+	if a := renAll(c19Args(info, fn.Decl.Body, "NewPointMessage")); len(a) == 7 {
 		want := []string{"msg.Point.Name", "msg.Point.Database", "msg.Point.RetentionPolicy", "models.Dimensions{ByName: msg.Point.ByName, TagNames: msg.Point.Dimensions}", "", "msg.Point.Tags", "time.Unix(0, msg.Point.Time).UTC()"}
 		roles := []string{"name", "database", "retention policy", "dimensions", "fields", "tags", "time"}
 		good := true
@@ -401,6 +437,9 @@ func c19Roles(c *core.Ctx, pkg *packages.Package) {
 			}
 			if i == 3 {
 				d := c19Lit(info, fn.Decl.Body, "Dimensions")
+				for k, v := range d {
+					d[k] = ren(v)
+				}
 				okk = strings.HasPrefix(a[i], "models.Dimensions{") && len(d) == 2 && d["ByName"] == "msg.Point.ByName" && d["TagNames"] == "msg.Point.Dimensions"
 				if !okk {
 					a[i] = "models.Dimensions{ByName: " + d["ByName"] + ", TagNames: " + d["TagNames"] + "}"
@@ -417,13 +456,13 @@ func c19Roles(c *core.Ctx, pkg *packages.Package) {
 	} else {
 		c.Fail("C19.roles", "handleResponse#point", fn.Decl.Pos(), "NewPointMessage call with 7 arguments not found")
 	}
-	if a := c19Args(info, fn.Decl.Body, "NewBatchPointMessage"); len(a) == 3 {
+	if a := renAll(c19Args(info, fn.Decl.Body, "NewBatchPointMessage")); len(a) == 3 {
 		okk := isFields(a[0]) && a[1] == "msg.Point.Tags" && a[2] == "time.Unix(0, msg.Point.Time).UTC()"
 		c.Check(okk, "C19.roles", "handleResponse#batch-point", fn.Decl.Pos(), "a batch point returned by the UDF must be built from (typed field maps, msg.Point.Tags, msg.Point.Time); it is built from %v", a)
 	} else {
 		c.Fail("C19.roles", "handleResponse#batch-point", fn.Decl.Pos(), "NewBatchPointMessage call not found")
 	}
-	if a := c19Args(info, fn.Decl.Body, "NewBeginBatchMessage"); len(a) == 5 {
+	if a := renAll(c19Args(info, fn.Decl.Body, "NewBeginBatchMessage")); len(a) == 5 {
 		okk := a[0] == "msg.End.Name" && a[1] == "msg.End.Tags" && a[2] == "s.begin.ByName" && a[3] == "time.Unix(0, msg.End.Tmax).UTC()" && a[4] == "len(s.points)"
 		c.Check(okk, "C19.roles", "handleResponse#batch", fn.Decl.Pos(), "the batch returned by the UDF must be (End.Name, End.Tags, begin.ByName, End.Tmax, number of points); it is %v", a)
 	} else {
@@ -467,6 +506,21 @@ func c19Fields(c *core.Ctx, pkg *packages.Package) {
 		seen := map[string]bool{}
 		deflt := false
 		var rangeKey string
+		// the variable bound by the type switch, and the named error result
+		swVar, errRes := "value", "err"
+		ast.Inspect(fn.Decl.Body, func(n ast.Node) bool {
+			if ts, ok := n.(*ast.TypeSwitchStmt); ok {
+				if as, ok := ts.Assign.(*ast.AssignStmt); ok && len(as.Lhs) == 1 {
+					swVar = types.ExprString(as.Lhs[0])
+				}
+			}
+			return true
+		})
+		for _, f := range fn.Decl.Type.Results.List {
+			if types.ExprString(f.Type) == "error" && len(f.Names) == 1 {
+				errRes = f.Names[0].Name
+			}
+		}
 		ast.Inspect(fn.Decl.Body, func(n ast.Node) bool {
 			switch x := n.(type) {
 			case *ast.RangeStmt:
@@ -478,7 +532,7 @@ func c19Fields(c *core.Ctx, pkg *packages.Package) {
 					// default: must set err and return
 					sets, rets := false, false
 					for _, st := range x.Body {
-						if as, ok := st.(*ast.AssignStmt); ok && types.ExprString(as.Lhs[0]) == "err" {
+						if as, ok := st.(*ast.AssignStmt); ok && types.ExprString(as.Lhs[0]) == errRes {
 							sets = true
 						}
 						if _, ok := st.(*ast.ReturnStmt); ok {
@@ -499,7 +553,7 @@ func c19Fields(c *core.Ctx, pkg *packages.Package) {
 				stored := false
 				for _, st := range x.Body {
 					if as, ok := st.(*ast.AssignStmt); ok && len(as.Lhs) == 1 {
-						if ix, ok := as.Lhs[0].(*ast.IndexExpr); ok && types.ExprString(ix.X) == m && types.ExprString(ix.Index) == rangeKey && types.ExprString(as.Rhs[0]) == "value" {
+						if ix, ok := as.Lhs[0].(*ast.IndexExpr); ok && types.ExprString(ix.X) == m && types.ExprString(ix.Index) == rangeKey && types.ExprString(as.Rhs[0]) == swVar {
 							stored = true
 						}
 					}
@@ -515,12 +569,17 @@ func c19Fields(c *core.Ctx, pkg *packages.Package) {
 	if fn := c.Need("C19.fields", "udf", "Server", "typeMapsToFields"); fn != nil {
 		loops := map[string]bool{}
 		early := false
+		// the map that is returned
+		resMap := "fields"
+		if last, ok := fn.Decl.Body.List[len(fn.Decl.Body.List)-1].(*ast.ReturnStmt); ok && len(last.Results) == 1 {
+			resMap = types.ExprString(last.Results[0])
+		}
 		ast.Inspect(fn.Decl.Body, func(n ast.Node) bool {
 			switch x := n.(type) {
 			case *ast.RangeStmt:
 				if len(x.Body.List) == 1 {
 					if as, ok := x.Body.List[0].(*ast.AssignStmt); ok {
-						if ix, ok := as.Lhs[0].(*ast.IndexExpr); ok && types.ExprString(ix.X) == "fields" && types.ExprString(ix.Index) == types.ExprString(x.Key) && types.ExprString(as.Rhs[0]) == types.ExprString(x.Value) {
+						if ix, ok := as.Lhs[0].(*ast.IndexExpr); ok && types.ExprString(ix.X) == resMap && types.ExprString(ix.Index) == types.ExprString(x.Key) && types.ExprString(as.Rhs[0]) == types.ExprString(x.Value) {
 							loops[types.ExprString(x.X)] = true
 						}
 					}
@@ -606,13 +665,13 @@ func c19Batch(c *core.Ctx, pkg *packages.Package) {
 				c.Ok("C19.batch", "writeBufferedBatch")
 			}
 		}
-		c09LoopNoExitErr(c, "C19.batch", "writeBufferedBatch#all-points", fn, "batch.Points()")
+		c09LoopNoExitErr(c, "C19.batch", "writeBufferedBatch#all-points", fn, an.ParamName(fn.Decl.Type, 0)+".Points()")
 	}
 	fn := c.Need("C19.batch", "udf", "Server", "handleResponse")
 	if fn == nil {
 		return
 	}
-	eng := &an.Engine{Prog: c.P,
+	eng := &an.Engine{Prog: c.P, Alias: map[string]string{an.RecvVarName(fn.Decl): "s", an.ParamName(fn.Decl.Type, 0): "response"},
 		TrackCall: func(call *ast.CallExpr, callee *types.Func) string {
 			if callee == nil {
 				return ""
@@ -820,7 +879,7 @@ func c19Routing(c *core.Ctx, pkg *packages.Package) {
 			if es, ok := st.(*ast.ExprStmt); ok {
 				if call, ok := es.X.(*ast.CallExpr); ok && len(call.Args) == 2 {
 					if f := core.Callee(info, call); f != nil && f.Name() == "doResponse" {
-						route[t] = types.ExprString(call.Args[1])
+						route[t] = replaceIdent(types.ExprString(call.Args[1]), an.RecvVarName(fn.Decl), "s")
 					}
 				}
 			}
@@ -842,7 +901,7 @@ func c19Routing(c *core.Ctx, pkg *packages.Package) {
 			switch x := n.(type) {
 			case *ast.CallExpr:
 				if f := core.Callee(info, x); f != nil && f.Name() == "doRequestResponse" && len(x.Args) == 2 {
-					ch = types.ExprString(x.Args[1])
+					ch = replaceIdent(types.ExprString(x.Args[1]), an.RecvVarName(m.Decl), "s")
 				}
 			case *ast.TypeAssertExpr:
 				if x.Type != nil {
@@ -856,15 +915,19 @@ func c19Routing(c *core.Ctx, pkg *packages.Package) {
 	// C19.snapshot
 	if m := c.Need("C19.snapshot", "udf", "Server", "Snapshot"); m != nil {
 		ret := ""
+		retVar := "snapshot"
+		if last, ok := m.Decl.Body.List[len(m.Decl.Body.List)-1].(*ast.ReturnStmt); ok && len(last.Results) == 2 {
+			retVar = types.ExprString(last.Results[0])
+		}
 		ast.Inspect(m.Decl.Body, func(n ast.Node) bool {
-			if as, ok := n.(*ast.AssignStmt); ok && len(as.Lhs) == 1 && types.ExprString(as.Lhs[0]) == "snapshot" {
+			if as, ok := n.(*ast.AssignStmt); ok && len(as.Lhs) == 1 && types.ExprString(as.Lhs[0]) == retVar {
 				ret = types.ExprString(as.Rhs[0])
 			}
 			return true
 		})
 		last := m.Decl.Body.List[len(m.Decl.Body.List)-1]
 		r, _ := last.(*ast.ReturnStmt)
-		okk := strings.HasSuffix(ret, ".(*agent.Response_Snapshot).Snapshot.Snapshot") && r != nil && len(r.Results) == 2 && types.ExprString(r.Results[0]) == "snapshot"
+		okk := strings.HasSuffix(ret, ".(*agent.Response_Snapshot).Snapshot.Snapshot") && r != nil && len(r.Results) == 2 && types.ExprString(r.Results[0]) == retVar
 		c.Check(okk, "C19.snapshot", "Server.Snapshot", m.Decl.Pos(), "Snapshot must return the Snapshot bytes of the response unchanged (takes %q)", ret)
 	}
 	if m := c.Need("C19.snapshot", "udf", "Server", "Restore"); m != nil {
@@ -1032,7 +1095,7 @@ func c19Pump(c *core.Ctx, pkg *packages.Package) {
 					ast.Inspect(x.Body, func(m ast.Node) bool {
 						switch y := m.(type) {
 						case *ast.CallExpr:
-							if f := core.Callee(info, y); f != nil && f.Name() == "Forward" && len(y.Args) == 2 && types.ExprString(y.Args[0]) == "n.outs" && x.Key != nil && types.ExprString(y.Args[1]) == types.ExprString(x.Key) {
+							if f := core.Callee(info, y); f != nil && f.Name() == "Forward" && len(y.Args) == 2 && types.ExprString(y.Args[0]) == an.RecvVarName(fn.Decl)+".outs" && x.Key != nil && types.ExprString(y.Args[1]) == types.ExprString(x.Key) {
 								fw = true
 							}
 						case *ast.BranchStmt:
@@ -1045,14 +1108,16 @@ func c19Pump(c *core.Ctx, pkg *packages.Package) {
 					}
 				case *ast.ForStmt:
 					// for m, ok := n.ins[0].Emit(); ok; … { select { case in <- m: case <-n.aborted: return } }
-					if x.Init == nil || !strings.Contains(types.ExprString(x.Cond), "ok") {
+					init, isAssign := x.Init.(*ast.AssignStmt)
+					if !isAssign || len(init.Lhs) != 2 || types.ExprString(x.Cond) != types.ExprString(init.Lhs[1]) {
 						return true
 					}
+					msgVar := types.ExprString(init.Lhs[0])
 					sent, other := false, 0
 					ast.Inspect(x.Body, func(m ast.Node) bool {
 						switch y := m.(type) {
 						case *ast.SendStmt:
-							if types.ExprString(y.Value) == "m" {
+							if types.ExprString(y.Value) == msgVar {
 								sent = true
 							}
 						case *ast.CommClause:
@@ -1097,8 +1162,12 @@ func c19Pump(c *core.Ctx, pkg *packages.Package) {
 						}
 					}
 				case *ast.UnaryExpr:
-					if x.Op == token.ARROW && types.ExprString(x.X) == "forwardErr" {
-						res = x.Pos()
+					if x.Op == token.ARROW {
+						if tv, ok := info.Types[x.X]; ok {
+							if ch, ok := tv.Type.Underlying().(*types.Chan); ok && types.Identical(ch.Elem(), types.Universe.Lookup("error").Type()) {
+								res = x.Pos()
+							}
+						}
 					}
 				}
 				return true
@@ -1122,7 +1191,10 @@ func c19Pump(c *core.Ctx, pkg *packages.Package) {
 							stderr = call.Pos()
 						case sel.Sel.Name == "WaitIO":
 							waitIO = call.Pos()
-						case sel.Sel.Name == "Wait" && x == "cmd":
+						case sel.Sel.Name == "Wait" && func() bool {
+							tv, ok := info.Types[sel.X]
+							return ok && strings.HasSuffix(tv.Type.String(), "exec.Cmd") || ok && strings.HasSuffix(tv.Type.String(), "command.Command") || ok && strings.Contains(tv.Type.String(), "Command")
+						}():
 							cmdWait = call.Pos()
 						}
 					}
@@ -1154,5 +1226,27 @@ func c19Pump(c *core.Ctx, pkg *packages.Package) {
 			return true
 		})
 		c.Check(ok2, "C19.snapshot", "UDFNode.runUDF#restore", fn.Decl.Pos(), "a saved snapshot must be handed to the UDF's Restore unchanged")
+	}
+}
+
+// c19Renamer rewrites the function's own names for its receiver and for the variable bound by its type switch to the names
+// the reference tables use ("s", "msg"), so that the tables do not depend on what the source calls them.
+func c19Renamer(fn *core.Func) func(string) string {
+	recv := an.RecvVarName(fn.Decl)
+	sw := ""
+	ast.Inspect(fn.Decl.Body, func(n ast.Node) bool {
+		if ts, ok := n.(*ast.TypeSwitchStmt); ok && sw == "" {
+			if as, ok := ts.Assign.(*ast.AssignStmt); ok && len(as.Lhs) == 1 {
+				sw = types.ExprString(as.Lhs[0])
+			}
+		}
+		return true
+	})
+	return func(k string) string {
+		k = replaceIdent(k, recv, "s")
+		if sw != "" {
+			k = replaceIdent(k, sw, "msg")
+		}
+		return k
 	}
 }
